@@ -95,13 +95,78 @@ func snapJob(j *prunner.PipelineJob) *JobSnap {
 }
 
 // Snapshot reads the reported state of every job and pipeline.
+// StallLimit is how long a call into the runner may take before the runner counts as blocked. Calls into the
+// runner take microseconds; one that has not returned after this long never will (a lock that is not released).
+const StallLimit = 20 * time.Second
+
+// Snapshot reads everything a client can observe. The read runs in a worker goroutine of the world so that a
+// runner that never answers (Blocked) does not hang the harness.
 func (w *World) Snapshot() *Snap {
-	s := &Snap{Jobs: map[uuid.UUID]*JobSnap{}}
-	w.PR.IterateJobs(func(j *prunner.PipelineJob) {
-		s.Jobs[j.ID] = snapJob(j)
+	if w.Blocked() != "" {
+		return &Snap{Jobs: map[uuid.UUID]*JobSnap{}}
+	}
+	w.snapOnce.Do(func() {
+		w.snapReq = make(chan struct{})
+		w.snapRep = make(chan *Snap, 1)
+		go func() {
+			for range w.snapReq {
+				s := &Snap{Jobs: map[uuid.UUID]*JobSnap{}}
+				w.PR.IterateJobs(func(j *prunner.PipelineJob) {
+					s.Jobs[j.ID] = snapJob(j)
+				})
+				s.Pipelines = w.PR.ListPipelines()
+				w.snapRep <- s
+			}
+		}()
 	})
-	s.Pipelines = w.PR.ListPipelines()
-	return s
+	w.snapReq <- struct{}{}
+	select {
+	case s := <-w.snapRep:
+		return s
+	default:
+	}
+	t := time.NewTimer(StallLimit)
+	defer t.Stop()
+	select {
+	case s := <-w.snapRep:
+		return s
+	case <-t.C:
+		w.setBlocked("IterateJobs/ListPipelines")
+		return &Snap{Jobs: map[uuid.UUID]*JobSnap{}}
+	}
+}
+
+// Call runs one call into the runner; it reports false if the call has not returned within StallLimit.
+func (w *World) Call(what string, f func()) bool {
+	if w.Blocked() != "" {
+		return false
+	}
+	done := make(chan struct{})
+	go func() { defer close(done); f() }()
+	t := time.NewTimer(StallLimit)
+	defer t.Stop()
+	select {
+	case <-done:
+		return true
+	case <-t.C:
+		w.setBlocked(what)
+		return false
+	}
+}
+
+func (w *World) setBlocked(what string) {
+	w.mu.Lock()
+	if w.blockedIn == "" {
+		w.blockedIn = what
+	}
+	w.mu.Unlock()
+}
+
+// Blocked names the call into the runner that did not return ("" if none).
+func (w *World) Blocked() string {
+	w.mu.Lock()
+	defer w.mu.Unlock()
+	return w.blockedIn
 }
 
 func (s *Snap) Info(p string) (prunner.PipelineInfo, bool) {
@@ -337,6 +402,9 @@ func (w *World) Settle() (*Snap, error) {
 	spins := 0
 	for {
 		s := w.Snapshot()
+		if b := w.Blocked(); b != "" {
+			return s, &StuckError{Pending: []string{fmt.Sprintf("the runner is blocked: %s has not returned for %s", b, StallLimit)}, Waited: time.Since(start)}
+		}
 		pend := w.pending(s)
 		if len(pend) == 0 {
 			seq := w.curSeq()
